@@ -19,7 +19,7 @@ import (
 // de-armoring reader and age.Decrypt when the file is armored (and directly
 // over the bytes otherwise).
 var SourceKinds = []string{
-	"bytes.Reader", "strings.Reader", "plain-reader", "os.File", "io.Pipe",
+	"bytes.Reader", "strings.Reader", "plain-reader", "os.File", "os.File@offset", "os.Pipe", "io.Pipe",
 	"bufio16", "bufio64", "bufio1000", "bufio4095", "bufio4096", "bufio8192", "bufio131072",
 	"bufio16@armor", "bufio512@armor", "bufio4095@armor", "bufio65536@armor",
 	"one-byte", "half", "data-with-eof", "multi-reader", "limited-reader",
@@ -52,6 +52,27 @@ func OpenSource(file []byte, kind string) (r io.Reader, cleanup func()) {
 		f.Write(file)
 		f.Seek(0, io.SeekStart)
 		return f, func() { f.Close(); os.Remove(f.Name()) }
+	case kind == "os.File@offset":
+		// an *os.File positioned behind other data: the file starts at offset 1000
+		f, err := os.CreateTemp(os.Getenv("VERIF_SCRATCH"), "axsrc.")
+		if err != nil {
+			return bytes.NewReader(file), cleanup
+		}
+		f.Write(bytes.Repeat([]byte("not the file\n"), 77)[:1000])
+		f.Write(file)
+		f.Seek(1000, io.SeekStart)
+		return f, func() { f.Close(); os.Remove(f.Name()) }
+	case kind == "os.Pipe":
+		// an *os.File that cannot seek
+		pr, pw, err := os.Pipe()
+		if err != nil {
+			return bytes.NewReader(file), cleanup
+		}
+		go func() {
+			pw.Write(file)
+			pw.Close()
+		}()
+		return pr, func() { pr.Close() }
 	case kind == "io.Pipe":
 		pr, pw := io.Pipe()
 		go func() {
@@ -85,16 +106,26 @@ func OpenSource(file []byte, kind string) (r io.Reader, cleanup func()) {
 	return bytes.NewReader(file), cleanup
 }
 
-// DecryptFrom is Decrypt with the file held in a reader of the given kind.
-func DecryptFrom(file []byte, armored bool, kind string, bufSize int, ids ...age.Identity) *Result {
+// OpenFor returns the reader to hand to age.Decrypt for a file held in a
+// reader of the given kind, the de-armoring reader included when armored.
+func OpenFor(file []byte, armored bool, kind string) (io.Reader, func()) {
 	if strings.HasSuffix(kind, "@armor") {
 		var src io.Reader = plainReader{bytes.NewReader(file)}
 		if armored {
 			src = armor.NewReader(src)
 		}
-		return Decrypt(bufio.NewReaderSize(src, bufioSize(kind)), false, bufSize, ids...)
+		return bufio.NewReaderSize(src, bufioSize(kind)), func() {}
 	}
 	src, cleanup := OpenSource(file, kind)
+	if armored {
+		src = armor.NewReader(src)
+	}
+	return src, cleanup
+}
+
+// DecryptFrom is Decrypt with the file held in a reader of the given kind.
+func DecryptFrom(file []byte, armored bool, kind string, bufSize int, ids ...age.Identity) *Result {
+	src, cleanup := OpenFor(file, armored, kind)
 	defer cleanup()
-	return Decrypt(src, armored, bufSize, ids...)
+	return Decrypt(src, false, bufSize, ids...)
 }
